@@ -66,6 +66,21 @@ def _base_of(fn, place, depth=0):
     return (l, repr(proj) if proj else "")
 
 
+_VARIANT_VIEWS = {
+    "core::option::Option::<T>::as_ref", "core::option::Option::<T>::as_mut", "core::option::Option::<T>::as_deref",
+    "core::option::Option::<T>::as_deref_mut", "core::result::Result::<T, E>::as_ref", "core::result::Result::<T, E>::as_mut",
+}
+
+
+def _alias(env, base):
+    """`x.as_ref()` has the variant of `x`: tests of the view are recorded against (and read from) the viewed place."""
+    if base[1] == "":
+        al = env.get(("alias", base[0]))
+        if al is not None:
+            return al
+    return base
+
+
 def _kill_memo(env, local):
     for key in [key for key in env if isinstance(key, tuple) and key[0] == "discr" and key[1] == local]:
         env.pop(key, None)
@@ -79,6 +94,7 @@ def _apply_stmts(fn, blk, env):
             env.pop(("dsrc", l), None)
             env.pop(("denum", l), None)
             env.pop(("bsrc", l), None)
+            env.pop(("alias", l), None)
             _kill_memo(env, l)
             continue
         if st[0] != "A":
@@ -89,13 +105,16 @@ def _apply_stmts(fn, blk, env):
         _kill_memo(env, dl)
         if k == "ref" and rv.get("m") == "mut":
             _kill_memo(env, rv["p"]["l"])
+            if not rv["p"].get("p"):
+                env.pop(rv["p"]["l"], None)      # a remembered value of a local does not survive a mutable borrow
         if st[1].get("p"):
             continue
         env.pop(("dsrc", dl), None)
         env.pop(("bsrc", dl), None)
+        env.pop(("alias", dl), None)
         val = None
         if k == "discr":
-            base = _base_of(fn, rv["p"])
+            base = _alias(env, _base_of(fn, rv["p"]))
             env[("dsrc", dl)] = base
             if rv.get("e"):
                 env[("denum", dl)] = tuple(sorted(rv["e"]["vs"].items()))
@@ -114,6 +133,9 @@ def _apply_stmts(fn, blk, env):
                 bs = env.get(("bsrc", p.l))
                 if bs is not None:
                     env[("bsrc", dl)] = bs
+                al = env.get(("alias", p.l))
+                if al is not None:
+                    env[("alias", dl)] = al
         elif k == "agg" and rv["a"]["t"] == "adt" and rv["a"].get("v"):
             adt = fn.prog.adts.get(rv["a"]["def"]) if fn.prog is not None else None
             if rv["a"]["def"] in ("core::option::Option", "core::result::Result") or (adt and adt["kind"] == "Enum"):
@@ -131,6 +153,27 @@ def _apply_stmts(fn, blk, env):
             env.pop(dl, None)
         else:
             env[dl] = val
+
+
+def _bool_roots(fn, blk, l):
+    """The tested temporary and the bool locals it was copied from / negated from inside this block: [(local, negated)]."""
+    out = [(l, False)]
+    cur, neg = l, False
+    for st in reversed(blk["s"]):
+        if st[0] != "A" or st[1].get("p") or st[1]["l"] != cur:
+            continue
+        rv = st[2]
+        src = None
+        if rv["k"] == "use":
+            src = core.op_place(rv["o"])
+        elif rv["k"] == "un" and rv["op"] == "Not":
+            src = core.op_place(rv["o"])
+            neg = not neg
+        if src is None or src.p or fn.locals[src.l] != "bool":
+            break
+        cur = src.l
+        out.append((cur, neg))
+    return out
 
 
 def analyse(fn, load_blocks=None, domain=(), max_states=300000, avoid=(), start=0, marks=(), init=None):
@@ -179,12 +222,17 @@ def analyse(fn, load_blocks=None, domain=(), max_states=300000, avoid=(), start=
                             for (db, di, kind, data) in fn.defs.get(ml, []):
                                 if kind == "assign" and data[2]["k"] == "ref" and data[2].get("m") == "mut":
                                     _kill_memo(e2, data[2]["p"]["l"])
+                    e2.pop(("alias", dl), None)
                     path = t["f"].get("path")
+                    if path in _VARIANT_VIEWS and t["args"] and not t["d"].get("p"):
+                        ap = t["args"][0].get("m") or t["args"][0].get("c")
+                        if ap is not None:
+                            e2[("alias", dl)] = _alias(e2, _base_of(fn, {"l": ap["l"], "p": ["*"] + (ap.get("p") or [])}))
                     if path in _BOOL_TESTS and t["args"] and not t["d"].get("p"):
                         ap = t["args"][0].get("m") or t["args"][0].get("c")
                         if ap is not None:
                             # the argument is `&place`
-                            base = _base_of(fn, {"l": ap["l"], "p": ["*"] + (ap.get("p") or [])})
+                            base = _alias(e2, _base_of(fn, {"l": ap["l"], "p": ["*"] + (ap.get("p") or [])}))
                             nt, nf = _BOOL_TESTS[path]
                             known = e2.get(("discr",) + base)
                             if known is not None:
@@ -231,6 +279,17 @@ def analyse(fn, load_blocks=None, domain=(), max_states=300000, avoid=(), start=
                 if [val for val, _ in t["v"]] == ["0"]:
                     e2[("discr", b0, b1)] = nt
                 outs.append((t["else"], e2))
+            elif plain and fn.locals[p.l] == "bool" and [val for val, _ in t["v"]] == ["0"]:
+                # an untracked bool: both edges are feasible, but each remembers what the test answered, so a later test of
+                # the same flag (or of a copy of it) on this path agrees with this one
+                roots = _bool_roots(fn, blk, p.l)
+                e0 = dict(env)
+                e1 = dict(env)
+                for (r_, neg) in roots:
+                    e0[r_] = 1 if neg else 0
+                    e1[r_] = 0 if neg else 1
+                outs.append((t["v"][0][1], e0))
+                outs.append((t["else"], e1))
             else:
                 for s in fn.succ[b]:
                     outs.append((s, env))
@@ -267,7 +326,7 @@ def values_at_term(fn, at, block, local):
     return out
 
 
-def must_pass_ps(fn, through, targets, start=0):
+def must_pass_ps(fn, through, targets, start=0, init=None):
     """Path-sensitive must-pass-through: no feasible path (under this abstraction) reaches a target
     block from `start` without entering a `through` block."""
     through = set(through)
@@ -275,7 +334,7 @@ def must_pass_ps(fn, through, targets, start=0):
     if not tg:
         return True
     try:
-        at = analyse(fn, avoid=through, start=start)
+        at = analyse(fn, avoid=through, start=start, init=init)
     except RuntimeError:
         return fn.must_pass(through, tg, start=start)
     return not any(at[b] for b in tg)
